@@ -13,7 +13,7 @@ import (
 	"github.com/lidofinance/dc4bc/storage"
 )
 
-var c15Altering = []string{"ID", "Type", "Payload", "Payload-emptied", "Payload-null", "Payload-truncated", "Payload-extended", "Event-empty", "unknown-ID"}
+var c15Altering = []string{"ID", "Type", "Payload", "Payload-emptied", "Payload-null", "Payload-truncated", "Payload-extended", "Event-empty", "Event-processed", "unknown-ID"}
 var c15Neutral = []string{"To", "DKGIdentifier", "CreatedAt", "ExtraData", "ResultMsgs-presigned"}
 
 // runC15: carrier faults on the hot<->cold path and the JSON round trips.
@@ -164,6 +164,14 @@ func runC15(w *World, tier string) (bool, interface{}) {
 				case "Event-empty":
 					v.Event = ""
 					v.ResultMsgs = nil
+				case "Event-processed":
+					// the event field arrives as the one that finishes a reinitialisation, on the
+					// answer to an ordinary operation: whatever the node makes of it, an accepted
+					// result's messages are posted (and a refused one has no effect)
+					if string(v.Type) == string(types.ReinitDKG) || len(v.ResultMsgs) == 0 || string(v.Event) == string(types.OperationProcessed) {
+						continue
+					}
+					v.Event = types.OperationProcessed
 				default:
 					continue // neutral fields are part of the answer, exercised with the genuine submit below
 				}
@@ -174,6 +182,12 @@ func runC15(w *World, tier string) (bool, interface{}) {
 				kinds = append(kinds, kind+"@"+string(o.Type))
 				w.Stats.Fault("carrier-altered-" + kind)
 				if w.Failed() {
+					return
+				}
+				if rep.OK() && kind == "Event-processed" {
+					if got := w.Board.Len() - blen; got != len(v.ResultMsgs) {
+						w.Fail("C15", "accepted-result-not-posted/"+string(o.Type), fmt.Sprintf("node %d accepted the answer to its %s operation (event field %s, %d result messages), retired the operation and posted %d messages", i, o.Type, v.Event, len(v.ResultMsgs), got))
+					}
 					return
 				}
 				if rep.OK() {
